@@ -49,10 +49,14 @@ def run(ctx: Ctx):
            f"the target padding ({got.get('padding')}), the cross-entropy ignore_index and the padding mask constant "
            f"({u(masks[0].value) if masks else None}) are not the same value: padded target slots would be scored", rel,
            f.line, sample=dict(padding=got.get("padding"), ce=u(ce[0])[:120] if ce else None))
-    # the loss per prefix: sum over targets / number of targets (clamped), zero where none
+    # the loss per prefix: sum over non-padding targets / max(number of targets, 1), zero where none
+    PM = masks[0].targets[0].id if masks and isinstance(masks[0].targets[0], ast.Name) else None
+    ce_assign = [n for n in own_nodes(f.node) if isinstance(n, ast.Assign) and ce and any(x is ce[0] for x in ast.walk(n.value))]
+    LV = ce_assign[0].targets[0].id if ce_assign and isinstance(ce_assign[0].targets[0], ast.Name) else None
     txt = [u(n) for n in own_nodes(f.node) if isinstance(n, ast.Assign)]
     col.ob("G16", "S2", f"{where}::average-over-target-set",
-           "loss = loss.masked_fill(padding_mask, 0.0).sum(2)" in txt and "loss = loss / (~padding_mask).sum(2).clamp_min(1)" in txt,
+           PM is not None and LV is not None and f"{LV} = {LV}.masked_fill({PM}, 0.0).sum(2)" in txt
+           and f"{LV} = {LV} / (~{PM}).sum(2).clamp_min(1)" in txt,
            "the per-prefix loss is not (sum over non-padding targets) / max(number of targets, 1)", rel, f.line)
     R_enum.g8_dispatch(pkg, res, col, f, "reduction", "S2", members=["mean", "sum", "none"], allow_else=0)
     # in optimal_completion: targets buffer filled with `padding`, scattered by count mask
@@ -60,9 +64,24 @@ def run(ctx: Ctx):
     fulls = [c for c in own_calls(oc.node) if call_name(c) == "torch.full" and len(c.args) >= 2]
     col.ob("G13", "S2", f"{rel}::optimal_completion::targets-initialised-with-padding", len(fulls) == 1 and u(fulls[0].args[1]) == "padding",
            "the target buffer is not initialised with the padding value", rel, oc.line)
-    tm = [n for n in own_nodes(oc.node) if isinstance(n, ast.Assign) and u(n.targets[0]) == "target_mask"]
-    col.ob("G12", "S2", f"{rel}::optimal_completion::targets-left-aligned", len(tm) == 1 and u(tm[0].value) == "counts.unsqueeze(-1) > torch.arange(C, device=device)",
-           f"target slots are filled under `{u(tm[0].value) if tm else None}`; expected count > position (tokens first, then only padding)", rel, oc.line)
+    # the scatter mask of the target buffer: count > position (tokens first, then only padding)
+    sc = [c for c in own_calls(oc.node) if isinstance(c.func, ast.Attribute) and c.func.attr in ("masked_scatter_", "masked_scatter") and c.args]
+    tmv = None
+    if len(sc) == 1 and isinstance(sc[0].args[0], ast.Name):
+        ds = list(rdo.defs_of(sc[0].args[0]))
+        tmv = ds[0].value if len(ds) == 1 else None
+    oktm = False
+    if isinstance(tmv, ast.Compare) and len(tmv.ops) == 1 and isinstance(tmv.ops[0], ast.Gt):
+        l, r_ = tmv.left, tmv.comparators[0]
+        # left: <counts>.unsqueeze(-1) where counts = mask.sum(2); right: torch.arange(<C>)
+        oktm = isinstance(l, ast.Call) and isinstance(l.func, ast.Attribute) and l.func.attr == "unsqueeze" \
+            and isinstance(r_, ast.Call) and call_name(r_) == "torch.arange"
+        if oktm and isinstance(l.func.value, ast.Name):
+            cd = list(rdo.defs_of(l.func.value))
+            oktm = len(cd) == 1 and isinstance(cd[0].value, ast.Call) and isinstance(cd[0].value.func, ast.Attribute) \
+                and cd[0].value.func.attr == "sum"
+    col.ob("G12", "S2", f"{rel}::optimal_completion::targets-left-aligned", oktm,
+           f"target slots are filled under `{u(tmv) if tmv is not None else None}`; expected count > position (tokens first, then only padding)", rel, oc.line)
     plumbing(ctx, "S1")
     return dict(
         explanation=(
